@@ -154,9 +154,11 @@ pub struct PrimitiveLayer { pub pitches: Xy<DbUnits> }
 pub struct ValidStack { pub prim: PrimitiveLayer }
 pub struct MetalLayer { pub dir: Dir }
 pub struct LayerPeriodData { pub signals: Vec<usize> }
-pub mod validate { pub use super::ValidMetalLayer; }
+pub mod validate { pub use super::{ValidMetalLayer, LibValidator, ValidAssign}; }
 pub struct ValidMetalLayer { pub spec: MetalLayer, pub index: usize, pub period_data: LayerPeriodData, pub pitch: DbUnits }
-pub struct RawExporter { pub stack: ValidStack }
+/// the gridded library is only handed on (by reference) into the temporary cell record
+pub struct Library { pub name: String }
+pub struct RawExporter { pub lib: Library, pub stack: ValidStack }
 //@ item layout21tetris/src/tracks.rs :: struct TrackRef
 //@   derive Debug, Clone, Copy
 //@ end
@@ -166,8 +168,43 @@ pub struct RawExporter { pub stack: ValidStack }
 /// model of slotmap's AssignKey and of the validated assignments table (read-only here)
 #[derive(Debug, Clone, Copy)]
 pub struct AssignKey { pub k: u64 }
-pub struct ValidAssign { pub top: TrackRef, pub bot: TrackRef }
+pub struct ValidAssign { pub src: Assign, pub top: TrackRef, pub bot: TrackRef }
 pub struct AssignMap { pub v: Vec<ValidAssign> }
+impl AssignMap {
+    /// the keys handed out so far, in order (model of SlotMap<AssignKey, ValidAssign>: insert-only here)
+    pub uninterp spec fn keys(&self) -> Seq<AssignKey>;
+    #[verifier::external_body]
+    pub fn with_key() -> (r: Self) ensures r.keys().len() == 0 { unimplemented!() }
+    /// model of SlotMap::insert: a NEW key for the value; earlier keys keep their values
+    #[verifier::external_body]
+    pub fn insert(&mut self, v: ValidAssign) -> (k: AssignKey)
+        ensures final(self).keys() == old(self).keys().push(k), !old(self).keys().contains(k), final(self).lookup(k) == Some(v),
+            forall|j: AssignKey| old(self).keys().contains(j) ==> #[trigger] final(self).lookup(j) == old(self).lookup(j),
+    { unimplemented!() }
+}
+/// ASSUMED copies of the contracts proved in unit tetris_validate (the stack here is reduced differently: only how many metal layers it has matters)
+pub uninterp spec fn stack_metals(s: ValidStack) -> int;
+pub uninterp spec fn cross_ok(s: ValidStack, c: TrackCross) -> bool;
+pub struct LibValidator<'stk> { pub stack: &'stk ValidStack }
+impl<'stk> LibValidator<'stk> {
+    pub fn new(stack: &'stk ValidStack) -> (r: Self) ensures r.stack == stack { Self { stack } }
+    #[verifier::external_body]
+    pub fn validate_track_cross(&mut self, i: &TrackCross) -> (r: LayoutResult<()>) ensures final(self).stack == old(self).stack, (r is Ok) == cross_ok(*old(self).stack, *i) { unimplemented!() }
+    #[verifier::external_body]
+    pub fn validate_assign(&mut self, assn: &Assign) -> (r: LayoutResult<ValidAssign>)
+        ensures final(self).stack == old(self).stack,
+            r is Ok ==> cross_ok(*old(self).stack, assn.at) && r->Ok_0.src == *assn && r->Ok_0.top.layer == r->Ok_0.bot.layer + 1
+                && ((r->Ok_0.top == assn.at.track && r->Ok_0.bot == assn.at.cross) || (r->Ok_0.top == assn.at.cross && r->Ok_0.bot == assn.at.track)),
+    { unimplemented!() }
+}
+impl ValidStack {
+    /// model of ValidStack::metal (the layer itself is not used by temp_cell): Ok exactly for an index inside the stack
+    #[verifier::external_body]
+    pub fn metal(&self, idx: usize) -> (r: LayoutResult<&ValidMetalLayer>) ensures (r is Ok) == (idx < stack_metals(*self)) { unimplemented!() }
+}
+/// model of `vec![vec![]; n]`: n empty lists
+#[verifier::external_body]
+pub fn vp_vec_of_empty<T>(n: usize) -> (r: Vec<Vec<T>>) ensures r@.len() == n, forall|i: int| 0 <= i < n ==> (#[trigger] r@[i])@.len() == 0 { let mut v = Vec::new(); for _ in 0..n { v.push(Vec::new()); } v }
 impl AssignMap {
     pub uninterp spec fn lookup(&self, k: AssignKey) -> Option<ValidAssign>;
     /// model of SlotMap::get
@@ -176,8 +213,11 @@ impl AssignMap {
 }
 /// R5: the temporary per-cell / per-layer records reduced to the fields temp_cell_layer_period reads; PtrList<T> as Vec<Ptr<T>>
 /// R5: the gridded layout reduced to what temp_cell_layer reads
-pub struct Layout { pub name: String, pub outline: Outline }
-pub struct TempCell<'lib> { pub cell: &'lib Layout, pub instances: Vec<Ptr<Instance>>, pub cuts: Vec<Vec<&'lib TrackCross>>, pub assignments: AssignMap, pub top_assns: Vec<Vec<AssignKey>>, pub bot_assns: Vec<Vec<AssignKey>> }
+//@ item layout21tetris/src/stack.rs :: struct Assign
+//@ end
+impl Clone for Assign { #[verifier::external_body] fn clone(&self) -> (r: Self) ensures r == *self { unimplemented!() } }
+pub struct Layout { pub name: String, pub outline: Outline, pub metals: usize, pub instances: Vec<Ptr<Instance>>, pub cuts: Vec<TrackCross>, pub assignments: Vec<Assign> }
+pub struct TempCell<'lib> { pub cell: &'lib Layout, pub lib: &'lib Library, pub instances: Vec<Ptr<Instance>>, pub cuts: Vec<Vec<&'lib TrackCross>>, pub assignments: AssignMap, pub top_assns: Vec<Vec<AssignKey>>, pub bot_assns: Vec<Vec<AssignKey>> }
 pub struct TempCellLayer<'lib> { pub layer: &'lib ValidMetalLayer, pub cell: &'lib TempCell<'lib>, pub instances: Vec<Ptr<Instance>>, pub pitch: DbUnits, pub nperiods: usize, pub span: DbUnits }
 //@ item layout21tetris/src/conv/raw.rs :: struct TempPeriod
 //@   pubfields
@@ -225,6 +265,15 @@ pub open spec fn intersects(s: ValidStack, i: Instance, l: ValidMetalLayer, n: i
 pub open spec fn loc_ok(i: Instance) -> bool { forall|d: Dir| -0x1_0000_0000 <= xy_dir(i.loc->Abs_0, d).num <= 0x1_0000_0000 && (#[trigger] xy_dir(i.loc->Abs_0, d)).dir == d }
 pub open spec fn size_ok(c: Cell) -> bool { outline_wf(cell_view(c)->0.outline) && forall|d: Dir| 0 <= #[trigger] cell_max(c, d) <= 0x1_0000_0000 }
 pub open spec fn inst_ok(i: Instance) -> bool { (i.loc is Abs ==> loc_ok(i)) && (cell_view(*i.cell.v) is Some ==> size_ok(*i.cell.v)) }
+/// the cuts of a layout filed by the layer of their track: list `l` holds exactly the cuts with track layer `l`, in order
+pub open spec fn cuts_of_layer(cs: Seq<TrackCross>, l: int) -> Seq<TrackCross> { cs.filter(|c: TrackCross| c.track.layer == l) }
+pub open spec fn derefs_c(v: Seq<&TrackCross>) -> Seq<TrackCross> { Seq::new(v.len(), |i: int| *v[i]) }
+/// machine-range / domain condition of temp_cell: every cut and assignment lies on layers the CELL uses (the lists are indexed by layer: the
+/// real code panics otherwise — the validator only checks the stack's layer count)
+pub open spec fn layout_in_range(l: Layout) -> bool {
+    &&& forall|i: int| 0 <= i < l.cuts@.len() ==> (#[trigger] l.cuts@[i]).track.layer < l.metals
+    &&& forall|i: int| 0 <= i < l.assignments@.len() ==> (#[trigger] l.assignments@[i]).at.track.layer < l.metals && l.assignments@[i].at.cross.layer < l.metals
+}
 /// the instances whose cell comes up to layer `ix` (has more metal layers than `ix`), in order: the ones that can block that layer
 pub open spec fn reaching(v: Seq<Ptr<Instance>>, ix: int) -> Seq<Ptr<Instance>> decreases v.len() {
     if v.len() == 0 { Seq::empty() } else if cell_view(*v.last().v.cell.v)->0.metals > ix { reaching(v.drop_last(), ix).push(v.last()) } else { reaching(v.drop_last(), ix) }
@@ -243,6 +292,12 @@ pub open spec fn blockages_are(bs: Seq<(PrimPitches, PrimPitches, Ptr<Instance>)
 pub open spec fn insts_ok(v: Seq<Ptr<Instance>>) -> bool { forall|k: int| 0 <= k < v.len() ==> inst_ok(*(#[trigger] v[k]).v) }
 pub open spec fn stack_ok(s: ValidStack) -> bool { 0 < s.prim.pitches.x.0 <= 0x100_0000 && 0 < s.prim.pitches.y.0 <= 0x100_0000 }
 
+pub proof fn lemma_filter_push(s: Seq<TrackCross>, c: TrackCross, l: int)
+    ensures cuts_of_layer(s.push(c), l) == (if c.track.layer == l { cuts_of_layer(s, l).push(c) } else { cuts_of_layer(s, l) }),
+{
+    reveal(Seq::filter);
+    assert(s.push(c).drop_last() == s);
+}
 pub proof fn lemma_prod_bound(a: int, b: int, ba: int, bb: int)
     requires -ba <= a <= ba, 0 <= b <= bb, ba >= 0,
     ensures -(ba * bb) <= a * b <= ba * bb,
@@ -263,6 +318,77 @@ impl RawExporter {
 //@   spec
 //|     requires !(pt is LayerPitches), pt is PrimPitches ==> isize::MIN <= pt->PrimPitches_0.num * xy_dir(self.stack.prim.pitches, pt->PrimPitches_0.dir).0 <= isize::MAX,
 //|     ensures r.0 == (match pt { UnitSpeced::DbUnits(u) => u.0 as int, UnitSpeced::PrimPitches(p) => p.num * xy_dir(self.stack.prim.pitches, p.dir).0, _ => 0 }),
+//@ end
+//@ fn layout21tetris/src/conv/raw.rs :: impl<'lib> RawExporter :: fn temp_cell
+//@   ret r
+//@   sub R6 /let mut cuts: Vec<Vec<&TrackCross>> = vec!\[vec!\[\]; layout\.metals\];/ => let mut cuts: Vec<Vec<&TrackCross>> = vp_vec_of_empty(layout.metals);
+//@   sub R6 /let mut bot_assns = vec!\[vec!\[\]; layout\.metals\];/ => let mut bot_assns: Vec<Vec<AssignKey>> = vp_vec_of_empty(layout.metals);
+//@   sub R6 /let mut top_assns = vec!\[vec!\[\]; layout\.metals\];/ => let mut top_assns: Vec<Vec<AssignKey>> = vp_vec_of_empty(layout.metals);
+//@   sub R5 /let mut assignments = SlotMap::with_key\(\);/ => let mut assignments = AssignMap::with_key();
+//@   sub R5 /cuts\[cut\.track\.layer\]\.push\(&cut\);/ => cuts[cut.track.layer].push(cut);
+//@   spec
+//|     requires layout_in_range(*layout),
+//|     ensures r is Ok ==> ({
+//|         let t = r->Ok_0;
+//|         &&& t.cell == layout &&& t.instances@ == layout.instances@
+//|         // one list of cuts per metal layer of the cell; list l holds exactly the cuts on layer l, in order; every cut was validated
+//|         &&& t.cuts@.len() == layout.metals &&& forall|l: int| 0 <= l < layout.metals ==> derefs_c((#[trigger] t.cuts@[l])@) == cuts_of_layer(layout.cuts@, l)
+//|         &&& forall|i: int| 0 <= i < layout.cuts@.len() ==> cross_ok(self.stack, #[trigger] layout.cuts@[i])
+//|         // one validated assignment per assignment, under a key of its own, filed under its top layer and under its bottom layer
+//|         &&& t.assignments.keys().len() == layout.assignments@.len() &&& t.top_assns@.len() == layout.metals &&& t.bot_assns@.len() == layout.metals
+//|         &&& forall|i: int| 0 <= i < layout.assignments@.len() ==> ({
+//|                 let k = #[trigger] t.assignments.keys()[i]; let v = t.assignments.lookup(k);
+//|                 v is Some && v->0.src == layout.assignments@[i] && v->0.top.layer == v->0.bot.layer + 1 && v->0.top.layer < layout.metals
+//|                     && t.top_assns@[v->0.top.layer as int]@.contains(k) && t.bot_assns@[v->0.bot.layer as int]@.contains(k)
+//|             })
+//|     }),
+//@   loop 1 iter it
+//|             invariant layout_in_range(*layout), instances@ == layout.instances@, cuts@.len() == layout.metals, it.index@ <= layout.cuts@.len(),
+//|                 forall|l: int| 0 <= l < layout.metals ==> derefs_c((#[trigger] cuts@[l])@) == cuts_of_layer(layout.cuts@.take(it.index@ as int), l),
+//|                 forall|i: int| 0 <= i < it.index@ ==> cross_ok(self.stack, #[trigger] layout.cuts@[i]),
+//@   before1 /validate::LibValidator::new\(&self\.stack\)\.validate_track_cross\(cut\)\?;/
+//|             let ghost c0 = cuts@;
+//|             proof { assert(*cut == layout.cuts@[it.index@ as int]); }
+//@   loopend 1
+//|             proof {
+//|                 let t0 = layout.cuts@.take(it.index@ as int); let t1 = layout.cuts@.take(it.index@ + 1);
+//|                 assert(t1 == t0.push(*cut));
+//|                 assert forall|l: int| 0 <= l < layout.metals implies derefs_c((#[trigger] cuts@[l])@) == cuts_of_layer(t1, l) by {
+//|                     lemma_filter_push(t0, *cut, l);
+//|                     if l == cut.track.layer { assert(derefs_c(cuts@[l]@) =~= derefs_c(c0[l]@).push(*cut)); } else { assert(cuts@[l] == c0[l]); }
+//|                 }
+//|             }
+//@   before1 /let mut bot_assns/
+//|         proof { assert(layout.cuts@.take(layout.cuts@.len() as int) == layout.cuts@); }
+//@   loop 2 iter it2
+//|             invariant layout_in_range(*layout), instances@ == layout.instances@, cuts@.len() == layout.metals, top_assns@.len() == layout.metals, bot_assns@.len() == layout.metals,
+//|                 forall|l: int| 0 <= l < layout.metals ==> derefs_c((#[trigger] cuts@[l])@) == cuts_of_layer(layout.cuts@, l),
+//|                 forall|i: int| 0 <= i < layout.cuts@.len() ==> cross_ok(self.stack, #[trigger] layout.cuts@[i]),
+//|                 it2.index@ <= layout.assignments@.len(), assignments.keys().len() == it2.index@,
+//|                 forall|i: int| 0 <= i < it2.index@ ==> ({
+//|                     let k = #[trigger] assignments.keys()[i]; let v = assignments.lookup(k);
+//|                     v is Some && v->0.src == layout.assignments@[i] && v->0.top.layer == v->0.bot.layer + 1 && v->0.top.layer < layout.metals
+//|                         && top_assns@[v->0.top.layer as int]@.contains(k) && bot_assns@[v->0.bot.layer as int]@.contains(k)
+//|                 }),
+//@   before1 /let v = validate::LibValidator::new\(&self\.stack\)\.validate_assign\(assn\)\?;/
+//|             let ghost ks0 = assignments.keys(); let ghost am0 = assignments; let ghost ta0 = top_assns@; let ghost ba0 = bot_assns@;
+//|             proof { assert(*assn == layout.assignments@[it2.index@ as int]); }
+//@   loopend 2
+//|             proof {
+//|                 let n = it2.index@ as int;
+//|                 assert(assignments.keys()[n] == k);
+//|                 assert(top_assns@[top as int]@.last() == k); assert(bot_assns@[bot as int]@.last() == k);
+//|                 assert forall|i: int| 0 <= i < n implies ({
+//|                     let kk = #[trigger] assignments.keys()[i]; let v = assignments.lookup(kk);
+//|                     v is Some && v->0.src == layout.assignments@[i] && v->0.top.layer == v->0.bot.layer + 1 && v->0.top.layer < layout.metals
+//|                         && top_assns@[v->0.top.layer as int]@.contains(kk) && bot_assns@[v->0.bot.layer as int]@.contains(kk)
+//|                 }) by {
+//|                     let kk = ks0[i]; assert(assignments.keys()[i] == kk); assert(ks0.contains(kk)); let v = am0.lookup(kk);
+//|                     let tl = v->0.top.layer as int; let bl = v->0.bot.layer as int;
+//|                     let j = choose|j: int| 0 <= j < ta0[tl]@.len() && ta0[tl]@[j] == kk; assert(top_assns@[tl]@[j] == kk);
+//|                     let j2 = choose|j2: int| 0 <= j2 < ba0[bl]@.len() && ba0[bl]@[j2] == kk; assert(bot_assns@[bl]@[j2] == kk);
+//|                 }
+//|             }
 //@ end
 //@ fn layout21tetris/src/conv/raw.rs :: impl<'lib> RawExporter :: fn temp_cell_layer
 //@   ret r
